@@ -1009,5 +1009,133 @@ Section R.
     intro Hb. apply raw_history; [apply WF_new| |cbn [new_raw rlen]; lia].
     intros k p. split; [intros (i & Hi & _); cbn in Hi; lia|discriminate].
   Qed.
+
+  (* ================= histories that also call reserve(n) and iterate ================= *)
+  Lemma rehash_loop_none old nw : forall n, cntS isocc old n = 0 -> rehash_loop n old nw = ROk nw.
+  Proof.
+    induction n as [|n IH]; intro H0; [reflexivity|]. cbn [cntS] in H0. cbn [rehash_loop].
+    destruct (isocc (status (tget (slots old) (N.of_nat n)))) eqn:E; [lia|]. rewrite IH by lia.
+    unfold rehash_one. change (is_occ (tget (slots old) (N.of_nat n))) with (isocc (status (tget (slots old) (N.of_nat n)))). now rewrite E.
+  Qed.
+  Lemma no_occ_no_kv t : RInv t -> RCnt t -> rlen t = 0 -> forall k p, ~ holds_kv t k p.
+  Proof.
+    intros I C H0 k p (i & Hi & Ho & _). rewrite (rc_len _ C) in H0.
+    assert (H : forall n, cntS isocc t n = 0 -> forall j, j < N.of_nat n -> isocc (status (tget (slots t) j)) = false).
+    { induction n as [|n IH]; intros Hc j Hj; [lia|]. cbn [cntS] in Hc.
+      destruct (isocc (status (tget (slots t) (N.of_nat n)))) eqn:E; [lia|].
+      destruct (N.eq_dec j (N.of_nat n)) as [->|Hne]; [exact E|apply IH; lia]. }
+    specialize (H _ H0 i). rewrite N2Nat.id in H. specialize (H Hi). unfold is_occ in Ho. unfold isocc in H. congruence.
+  Qed.
+  (* reserve(add) for ANY add: succeeds, keeps the contents and the length, leaves at least `add` free slots *)
+  Lemma reserve_any_ok t add : WF t -> rlen t + add <= 2 ^ 62 ->
+    exists t1, reserve t add = ROk t1 /\ WF t1 /\ rlen t1 = rlen t /\ add <= rfree t1 /\
+      (forall k p, holds_kv t1 k p <-> holds_kv t k p).
+  Proof.
+    intros W Hs. unfold reserve. destruct (N.ltb_spec (rfree t) add) as [Hlt|Hge].
+    2:{ exists t. splits; auto. reflexivity. }
+    unfold reserve_rehash. set (c := npot (rlen t + add)).
+    destruct (N.le_gt_cases 2 add) as [H2|H1].
+    - destruct (npot_spec (rlen t + add)) as (Hpow & Hsm & Hroom); [lia|exact Hs|]. fold c in Hpow, Hsm, Hroom.
+      destruct W as [(Hc & Hl & Hf)|(I & C & Hfr)].
+      + rewrite Hc. cbn [N.to_nat rehash_loop]. destruct (fresh_ok c Hpow Hsm) as [If Cf].
+        exists (fresh c). splits; auto.
+        * right. splits; auto. cbn [fresh rlen]. intro; contradiction.
+        * cbn [fresh rfree]. lia.
+        * intros k p. split; intros (i & Hi & Ho & _); [cbn [fresh slots] in Ho; rewrite tget_const in Ho; discriminate|lia].
+      + assert (Hroom2 : rlen t + 2 <= c) by lia.
+        destruct (rehash_loop_ok t c I C Hpow Hsm Hroom2 (N.to_nat (rcap t))) as (nw & Hl & In & Cn & Hc & Hlen & Hfree & Hcont); [lia|].
+        rewrite <- (rc_len _ C) in Hlen. exists nw. splits; auto; try lia.
+        * right. splits; auto. intros _. lia.
+        * intros k p. rewrite Hcont. rewrite N2Nat.id. split; [intros (i & _ & H); exists i; exact H|intros (i & Hi & Ho & Hsv); exists i; splits; auto].
+    - (* add = 1 with no free slot: only possible for an empty table; the new table has one slot *)
+      assert (add = 1) by lia. subst add. assert (Hf0 : rfree t = 0) by lia.
+      assert (Hl0 : rlen t = 0).
+      { destruct W as [(_ & Hl & _)|(_ & _ & Hfr)]; [exact Hl|]. destruct (N.eq_dec (rlen t) 0); [assumption|]. specialize (Hfr n). lia. }
+      assert (Hc1 : c = 1) by (unfold c, npot; rewrite Hl0; reflexivity).
+      assert (Hpow : exists m, c = 2 ^ m) by (exists 0; rewrite Hc1; reflexivity).
+      assert (Hsm : c <= M63) by (rewrite Hc1; unfold M63; lia).
+      destruct (fresh_ok c Hpow Hsm) as [If Cf].
+      assert (Hrun : rehash_loop (N.to_nat (rcap t)) t (fresh c) = ROk (fresh c)).
+      { apply rehash_loop_none. destruct W as [(Hc & _ & _)|(_ & C & _)]; [rewrite Hc; reflexivity|]. rewrite <- (rc_len _ C). exact Hl0. }
+      exists (fresh c). splits; auto.
+      + right. splits; auto. cbn [fresh rlen]. intro; contradiction.
+      + cbn [fresh rfree]. lia.
+      + intros k p. split; [intros (i & Hi & Ho & _); cbn [fresh slots] in Ho; rewrite tget_const in Ho; discriminate|].
+        intro Hk. exfalso. destruct W as [(Hc & _ & _)|(I & C & _)]; [destruct Hk as (i & Hi & _); lia|]. exact (no_occ_no_kv t I C Hl0 k p Hk).
+  Qed.
+
+  Inductive xop := XOp (o : rop) | XReserve (add : N) | XIter.
+  Inductive xobs := XO (o : robs) | XRes | XIt (l : list (K * P)).
+  Definition iter (t : raw) : list (K * P) := occ_vals t (N.to_nat (rcap t)).
+  Definition xstep (t : raw) (o : xop) : out (raw * xobs) :=
+    match o with
+    | XOp o => obind (rstep t o) (fun x => ROk (fst x, XO (snd x)))
+    | XReserve add => obind (reserve t add) (fun t' => ROk (t', XRes))
+    | XIter => ROk (t, XIt (iter t))
+    end.
+  Fixpoint xrun (t : raw) (l : list xop) : out (raw * list xobs) :=
+    match l with
+    | [] => ROk (t, [])
+    | o :: l' => obind (xstep t o) (fun x => obind (xrun (fst x) l') (fun y => ROk (fst y, snd x :: snd y)))
+    end.
+  (* the specification: a map from keys to values; iteration may list the pairs in any order *)
+  Definition xnext (m : K -> option P) (o : xop) : K -> option P := match o with XOp o => fst (mstep m o) | _ => m end.
+  Definition xobs_ok (m : K -> option P) (o : xop) (ob : xobs) : Prop :=
+    match o, ob with
+    | XOp o, XO ob => ob = snd (mstep m o)
+    | XReserve _, XRes => True
+    | XIter, XIt l => NoDup (map fst l) /\ (forall k p, In (k, p) l <-> m k = Some p)
+    | _, _ => False
+    end.
+  Fixpoint xspec (m : K -> option P) (l : list xop) (obs : list xobs) : Prop :=
+    match l, obs with
+    | [], [] => True
+    | o :: l', ob :: obs' => xobs_ok m o ob /\ xspec (xnext m o) l' obs'
+    | _, _ => False
+    end.
+  Definition xfinal (m : K -> option P) (l : list xop) : K -> option P := fold_left xnext l m.
+  Definition res_small (o : xop) : Prop := match o with XReserve a => a <= 2 ^ 61 | _ => True end.
+
+  Lemma iter_spec t m : WF t -> Refines t m ->
+    NoDup (map fst (iter t)) /\ (forall k p, In (k, p) (iter t) <-> m k = Some p) /\ N.of_nat (length (iter t)) = rlen t.
+  Proof.
+    intros W R. unfold iter. destruct W as [(Hc & Hl & _)|(I & C & _)].
+    - rewrite Hc. cbn [N.to_nat occ_vals map length]. splits; [constructor| |lia].
+      intros k p. split; [intros []|]. intro Hm. apply R in Hm. destruct Hm as (i & Hi & _). lia.
+    - destruct (iter_exactly_once t I) as [Hin Hnd]. splits; [exact Hnd| |exact (iter_len t I C)].
+      intros k p. rewrite Hin. apply R.
+  Qed.
+
+  Lemma xstep_ok t m o : WF t -> rlen t + 2 <= 2 ^ 61 -> res_small o -> Refines t m ->
+    exists t' ob, xstep t o = ROk (t', ob) /\ xobs_ok m o ob /\ WF t' /\ Refines t' (xnext m o) /\ rlen t' <= rlen t + 1.
+  Proof.
+    intros W Hs Hr R. destruct o as [o|add|]; cbn [xstep xobs_ok xnext].
+    - destruct (rstep_ok t m o W) as (t' & Hst & W' & R' & Hl); [unfold small; lia|exact R|].
+      rewrite Hst. cbn [obind fst snd]. exists t', (XO (snd (mstep m o))). splits; auto.
+    - cbn [res_small] in Hr. destruct (reserve_any_ok t add W) as (t1 & Hrs & W1 & Hl1 & _ & Hkv); [lia|].
+      rewrite Hrs. cbn [obind]. exists t1, XRes. splits; auto; [|lia].
+      intros k p. rewrite Hkv. apply R.
+    - exists t, (XIt (iter t)). destruct (iter_spec t m W R) as (A & B & _). splits; auto. lia.
+  Qed.
+
+  (* C19 over insert / remove / get / clear / reserve(n) / iterate histories *)
+  Theorem raw_history_x l : forall t m, WF t -> Refines t m -> rlen t + N.of_nat (length l) + 2 <= 2 ^ 61 -> Forall res_small l ->
+    exists t' obs, xrun t l = ROk (t', obs) /\ xspec m l obs /\ WF t' /\ Refines t' (xfinal m l).
+  Proof.
+    induction l as [|o l IH]; intros t m W R Hb Hf.
+    - exists t, []. cbn. auto.
+    - cbn [xrun xspec xfinal fold_left]. inversion Hf as [|? ? Ho Hf']; subst.
+      destruct (xstep_ok t m o W) as (t1 & ob & Hst & Hob & W1 & R1 & Hl1); [cbn [length] in Hb; lia|exact Ho|exact R|].
+      rewrite Hst. cbn [obind fst snd].
+      destruct (IH t1 (xnext m o) W1 R1) as (t' & obs & Hrun & Hsp & W' & R'); [cbn [length] in Hb; lia|exact Hf'|].
+      rewrite Hrun. cbn [obind fst snd]. exists t', (ob :: obs). splits; auto.
+  Qed.
+  Corollary raw_history_x_new l : N.of_nat (length l) + 2 <= 2 ^ 61 -> Forall res_small l ->
+    exists t' obs, xrun new_raw l = ROk (t', obs) /\ xspec (fun _ => None) l obs /\ WF t' /\ Refines t' (xfinal (fun _ => None) l).
+  Proof.
+    intros Hb Hf. apply raw_history_x; [apply WF_new| |cbn [new_raw rlen]; lia|exact Hf].
+    intros k p. split; [intros (i & Hi & _); cbn in Hi; lia|discriminate].
+  Qed.
 End R.
 Print Assumptions raw_history_new.
+Print Assumptions raw_history_x_new.
